@@ -99,6 +99,12 @@ def gen(shard, rng, tier):
                 else:
                     b = (N.to_bytes(32, "big") * 2)[:l] if l <= 32 else bytes(l - 32) + (N - 1).to_bytes(32, "big")
                 yield from case(b)
+    if shard.get("first"):
+        # lengths equal to 32 modulo 256 / 65536 (a length compared after a narrowing cast), valid scalar in the first or last 32 bytes
+        for l in (32 + 256, 32 + 512, 32 + 65536, 256, 64 + 256):
+            good = rng.randrange(1, N).to_bytes(32, "big")
+            for b in (good + bytes(l - 32), bytes(l - 32) + good, good + rand_bytes(rng, l - 32), rand_bytes(rng, l - 32) + good):
+                yield from case(b)
     for _ in range(shard["count"] // 10):
         yield from case(limb_value(rng).to_bytes(32, "big"))
     for _ in range(shard["count"]):
